@@ -405,7 +405,12 @@ func genSeqCase(t *rapid.T) SeqCase {
 	for i := range c.Steps {
 		st := &c.Steps[i]
 		l := fmt.Sprintf("s%d", i)
-		st.Call = rapid.SampledFrom(seqCalls[c.Obj]).Draw(t, l+"call")
+		if i > 0 && rapid.IntRange(0, 3).Draw(t, l+"again") == 0 {
+			// the same call once more: what the object kept from the previous answer to this call meets the next answer
+			st.Call = c.Steps[i-1].Call
+		} else {
+			st.Call = rapid.SampledFrom(seqCalls[c.Obj]).Draw(t, l+"call")
+		}
 		if withKeys && (i == 0 || (seqUsesKeys(st.Call) && rapid.IntRange(0, 9).Draw(t, l+"keysq") < 6)) {
 			d := genJWKS(t, prev, l+"jwks")
 			st.Keys = &d
